@@ -250,7 +250,8 @@ func VerifH_C16_constructs() {
 	pkg := verifNewPkg()
 	cb := pkg.NewFunc(nil, "f", nil, nil, false).BodyStart(pkg)
 	// arbitrary valid pre-state: an enclosing closure, enclosing blocks, pending statements, flow flags
-	preclosure := vp.Choose("preclosure", 2) == 1
+	// (the thorough tier reaches closure-in-closure through its nested constructs)
+	preclosure := !vp.Thorough() && vp.Choose("preclosure", 2) == 1
 	if preclosure {
 		cb.NewClosure(nil, nil, false).BodyStart(pkg)
 	}
